@@ -65,10 +65,10 @@ def run(ctx, rep):
     rep.not_decided = "that the case conversion computes serde's string (C16); attribute spellings serde accepts but typeshare's meta parser does not."
     rep.trusted = ['syn', 'astq evaluator', 'binding-syntax table (quoted property, @SerialName, CodingKeys raw value, json tag, Field(alias=))']
     T = emit.Types(ctx.astq)
-    pr.all_attrs_rule(ctx, rep, 'KA', ('get_ident', 'serde_rename_all'), 4)
-    k1(ctx, rep, T)
-    k2(ctx, rep, T)
-    k3(ctx, rep, T)
+    rep.section(pr.all_attrs_rule, ctx, rep, 'KA', ('get_ident', 'serde_rename_all'), 4, keys=('rename', 'rename_all'))
+    rep.section(k1, ctx, rep, T)
+    rep.section(k2, ctx, rep, T)
+    rep.section(k3, ctx, rep, T)
 
 
 def k1(ctx, rep, T):
